@@ -37,12 +37,15 @@ class ParserModel:
         resp_file = facts.adt(RESP)["file"]
         seq_file = facts.adt(SW)["file"]
         req_file = facts.adt(REQ)["file"]
+        mod_prefix = CC.rsplit("::", 1)[0] + "::"
         def same_file(d):
             g = facts.fns.get(d)
             if g is None or not g.rec.get("local"):
                 return False
             if g.file == self.file:
                 return True
+            if d.startswith(mod_prefix) or d.startswith("<" + mod_prefix):
+                return True             # a submodule of the parser's module (`client/head.rs`)
             if g.file != req_file:
                 return False            # (helpers moved next to the Request type are followed; other modules have their own rules)
             if d == "request::new_request" or g.rec.get("impl_self_adt") in owned_adts:
@@ -296,11 +299,16 @@ def statuses_of(p):
 
 
 def prints_of(p):
-    return [e for e in p.calls() if re.search(r"response::Response::<R>::raw_print$", e[2])]
+    import request_rules as RR_
+    RR_.rmodel(_FACTS["facts"])
+    return [e for e in p.calls() if re.search(RR_.RAW_PRINT, e[2])]
 
 
 def version_arg(p, e):
     """the HTTP version a raw_print answers with (3rd argument)"""
+    a = shared.print_call_args(_FACTS["facts"], p.state, e)
+    if "version" in a:
+        return a["version"]
     return absint.deep(p.state, e[3][2]) if len(e[3]) > 2 else None
 
 
